@@ -28,6 +28,8 @@ def concerns(ev, verdict):
             s.add("C19")
         if p.startswith("num-"):
             s.add("C18")
+        if p.startswith("evalbytes-"):
+            s.add("C10")
         if p.startswith("denote-") or p.startswith("json-"):
             s.add("C11")
         if p in ("registry-visibility", "valid-registration-rejected", "invalid-name-accepted"):
